@@ -62,12 +62,16 @@ def probe_registration(violation):
         inner = gen.build(inner_src)
         w = got(inner)
         for v in (good, None, "x" * 20, -5):
-            a = [type(e).__name__ for e in validate(w, v).get_errors()]
+            try:
+                a = [type(e).__name__ for e in validate(w, v).get_errors()]
+                rw = repr(w)
+            except Exception as ex:  # noqa
+                a, rw = f"raised {type(ex).__name__}: {ex}", "<raised>"
             b = [type(e).__name__ for e in validate(inner, v).get_errors()]
-            if a != b or repr(w) != repr(inner):
+            if a != b or rw != repr(inner):
                 violation("a custom type taken from the facade after re-registration does not behave like the built-in it forwards to",
                           {"kind": "history", "registered": cls.__name__, "inner": inner_src, "value": gen.vsrc(v),
-                           "observed": [a, repr(w)], "expected": [b, repr(inner)]})
+                           "observed": [a, rw], "expected": [b, repr(inner)]})
                 return n
     return n
 
@@ -248,17 +252,17 @@ def run(ctx):
                     if kw != ku:
                         violation("validation through the custom type " +
                                   ("raises" if kw == "raise" else "returns") + ", the built-in tree does not",
-                                  dict(rp, observed=repr(pw)[:300], expected=repr(pu)[:300]))
+                                  dict(rp, observed=common.srepr(pw)[:300], expected=common.srepr(pu)[:300]))
                     elif kw == "raise":
                         if type(pw) is not type(pu):
                             violation("validation raises a different exception through the custom type",
-                                      dict(rp, observed=repr(pw)[:300], expected=repr(pu)[:300]))
+                                      dict(rp, observed=common.srepr(pw)[:300], expected=common.srepr(pu)[:300]))
                     else:
                         why = _errors_differ(_describe(pw, fmt), _describe(pu, fmt))
                         if why:
                             violation("validation errors differ through the custom type: " + why,
-                                      dict(rp, observed=repr(_describe(pw, fmt))[:600],
-                                           expected=repr(_describe(pu, fmt))[:600]))
+                                      dict(rp, observed=common.srepr(_describe(pw, fmt))[:600],
+                                           expected=common.srepr(_describe(pu, fmt))[:600]))
                         if pw:
                             dist["validate:reject"] += 1
                             if any(len(e.path) >= 1 for e in pw):
@@ -290,7 +294,7 @@ def run(ctx):
                     violation("generation through the custom type " +
                               (f"raises {ow[0]}" if ow[0] != "ok" else "returns") +
                               ", the built-in tree " + (f"raises {ou[0]}" if ou[0] != "ok" else "returns"),
-                              dict(rp, observed=repr(ow[1])[:300], expected=repr(ou[1])[:300]))
+                              dict(rp, observed=common.srepr(ow[1])[:300], expected=common.srepr(ou[1])[:300]))
                     continue
                 if ow[0] != "ok":
                     dist["generate:raises:" + ow[0]] += 1
@@ -299,7 +303,7 @@ def run(ctx):
                 if not _same(ow[1], ou[1]) or list(t1.used) != list(t2.used):
                     violation("generation under the same tape yields a different value / consumes different draws "
                               "through the custom type",
-                              dict(rp, observed=repr(ow[1])[:300], expected=repr(ou[1])[:300]))
+                              dict(rp, observed=common.srepr(ow[1])[:300], expected=common.srepr(ou[1])[:300]))
                     continue
                 kw, pw = _observe_validate(w, validators["Plain"], ow[1])
                 ku, pu = _observe_validate(u, validators["Plain"], ow[1])
@@ -312,7 +316,7 @@ def run(ctx):
                         dist["generate:nonconforming_with_and_without_custom"] += 1
                     else:
                         violation("generated value validates differently through the custom type",
-                                  dict(rp, value=gen.vsrc(ow[1]), observed=repr(pw)[:300], expected=repr(pu)[:300]))
+                                  dict(rp, value=gen.vsrc(ow[1]), observed=common.srepr(pw)[:300], expected=common.srepr(pu)[:300]))
 
             # ---- substitution
             svals = []
@@ -329,7 +333,7 @@ def run(ctx):
                 rp = dict(base, op="substitute", value=gen.vsrc(v), origin=origin)
                 if ow[0] != ou[0]:
                     violation(f"substitution outcome differs through the custom type: {ow[0]} vs {ou[0]}",
-                              dict(rp, observed=repr(ow[1])[:300], expected=repr(ou[1])[:300]))
+                              dict(rp, observed=common.srepr(ow[1])[:300], expected=common.srepr(ou[1])[:300]))
                 elif ow[0] == "ok":
                     dist["substitute:ok"] += 1
                     rw, ru = ow[1], ou[1]
@@ -340,7 +344,7 @@ def run(ctx):
                     tw, tu = _outcome(lambda: repr(rw)), _outcome(lambda: repr(ru))
                     if not same or tw[0] != tu[0] or (tw[0] == "ok" and tw[1] != tu[1]):
                         violation("substituted schema differs through the custom type",
-                                  dict(rp, observed=repr(rw)[:400], expected=repr(ru)[:400]))
+                                  dict(rp, observed=common.srepr(rw)[:400], expected=common.srepr(ru)[:400]))
                 else:
                     dist["substitute:" + ow[0]] += 1
                     if ow[0] == "SubstitutionError" and str(ow[1]) != str(ou[1]):
